@@ -153,6 +153,8 @@ func runC05(c *Ctx) {
 	add("LOOK3", look3Family(), "", profP0, 5)
 	add("ALTREP", altRepFamily(), "", profP0, 5)
 	add("SETOVL", setOvlFamily(), "", profP0, 5)
+	add("LOOKLOOP", lookLoopFamily(), "", profP0, 6)
+	add("LOOKLOOP", lookLoopFamily(), "R", profP0, 6)
 	add("LOOPALT", loopAltFamily(), "", profP0, 5)
 	add("BUMP", bumpFamily(), "", profP0, 5)
 	add("LOOP", loopF, "", profP0, 4)
